@@ -261,6 +261,24 @@ def build(tier, work, builder):
                           bound_note="block width <= 3 statements / 3 local variables"))
     jobs.append(F.Job("c11_collect_changes", "h_c11_collect_changes", [sobj, shobj], timeout=120, unwind=6, functions=["CollectChangesVisitor::visitExpression"]))
     jobs.append(F.Job("c11_collect_dependencies", "h_c11_collect_dependencies", [sobj, shobj], timeout=120, unwind=6, functions=["CollectDependenciesVisitor::visitExpression"]))
+    # part 4: the tail of TypeChecker::visitFunction (function_t::changes / depends)
+    tsrc = X.Source(T.TC)
+    vf = X.function(tsrc, "TypeChecker::visitFunction", r"^void TypeChecker::visitFunction\(function_t& fun\)")
+    s0, _ = tsrc.find_unique(r"^\s*CollectChangesVisitor visitor\(fun\.changes\);", vf.start, vf.end, what="visitFunction: CollectChangesVisitor")
+    tail = X.Slice("TypeChecker::visitFunction (tail: changes / depends)", tsrc, s0, vf.end - 1)
+    X.lower_local_lambdas(tail)
+    X.lower_range_for(tail, "variable_t")
+    tail.sub("L15:auto it = begin()", r"auto it = (\w+)\.begin\(\)", r"verif_symset_it it = \1.begin()")
+    tail.sub("L17:std::set<symbol_t>->bitmask", r"std::set<symbol_t>", "verif_symset")
+    tail.sub("glue:std::next(it)", r"std::next\(it\)", "verif_next(it)")
+    X.lower_ternary_assign(tail)
+    tail.sub("L15:body.get()->body", r"fun\.body\.get\(\)", "fun.body")
+    write(work, "visit_function_tail.inc", "void TypeChecker::visitFunction_tail(function_t& fun)\n{\n" + tail.text + "\n}\n")
+    slices.append(tail)
+    vfobj = builder.cc(os.path.join(CDIR, "vf11.cpp"), includes=[work, os.path.join(X.REPO, "include")], cpp=True)
+    jobs.append(F.Job("c11_visit_function", "h_c11_visit_function", [vfobj, shobj], timeout=300, unwind=9,
+                      functions=["TypeChecker::visitFunction (computation of function_t::changes and function_t::depends)"],
+                      bound_note="<= 3 parameters, <= 3 locals, 8 symbols"))
     return {
         "jobs": jobs, "slices": [s.info() for s in slices],
         "drops": ["L18: the accepting else-branch of the sync / invariant gate chains", "everything around the sliced if-chains (loops over declarations, the DocumentVisitor traversal)"],
@@ -268,7 +286,7 @@ def build(tier, work, builder):
                          "flat type abstraction", "induction over tree height (meta-step)",
                          "stubs/tc_env.h: checkExpression / isCompileTimeComputable / changes_any_variable answered by ghost contracts; other callees arbitrary"],
         "assumptions": ["arity <= 4 (walkers), <= 6 (query clauses)", "well-formed nodes (arity of assignment / ++ / call / inline-if kinds as in expression_t::get_size)",
-                        "statement visitors: each visit* body is under contract over flattened statement structs; the override table (which visit* runs for which statement class) and TypeChecker::visitFunction's final erase of locals/parameters are not",
+                        "statement visitors: each visit* body is under contract over flattened statement structs; the override table (which visit* runs for which statement class) is not; TypeChecker::visitFunction's computation of changes/depends from the walkers' result is (c11_visit_function)",
                         "that every side-effect-free context of the statement reaches one of the listed gates is the traversal's property (not under contract); array sizes / range bounds (checkType) have no gate at all - see known finding"],
         "explanation": "part 1: one-level induction steps for the set-collecting walkers; part 2: every `changes_any_variable()` gate of typechecker.cpp executed with the gated expression's W != {} ghost: an error must be recorded",
     }
